@@ -644,6 +644,25 @@ impl Rig {
                 }
                 self.conns.lock().unwrap().insert(conn, Arc::new(Mutex::new(ClientConn { stream: s, buf: Vec::new(), port })));
             }
+            // environment action: the kernel publishes a record under the source-port number of `conn` (as a connect of another
+            // socket with the same port number would) while `conn` itself is already open
+            "inject_record" => {
+                let conn = st["conn"].as_str().unwrap();
+                let port = self.conns.lock().unwrap().get(conn).map(|c| c.lock().unwrap().port).unwrap_or(0);
+                let a = &st["attr"];
+                let dip: std::net::Ipv4Addr = a["dip"].as_str().unwrap().parse().unwrap();
+                verif::audit::inject(
+                    port,
+                    verif::audit::Record {
+                        logon_id: a["uid"].as_u64().unwrap_or(0),
+                        process_id: a["pid"].as_u64().unwrap_or(std::process::id() as u64) as u32,
+                        is_admin: a["admin"].as_i64().unwrap_or(0) as i32,
+                        destination_ipv4: u32::from_ne_bytes(dip.octets()),
+                        destination_port: (a["dport"].as_u64().unwrap() as u16).to_be(),
+                    },
+                );
+                verif::trace::emit(json!({"e": "InjectRecord", "conn": conn, "port": port}));
+            }
             "wait_accepted" => {
                 // wait until the proxy consumed the attribution record of this connection's port (accept finished)
                 let conn = st["conn"].as_str().unwrap();
@@ -709,7 +728,26 @@ impl Rig {
                 }
                 if wres.is_ok() {
                     wres = match framing {
-                        "chunked" => write_chunked(&mut g.stream, &body, &usizes_of(st.get("chunks")), st["gap_ms"].as_u64().unwrap_or(0)),
+                        "chunked" => {
+                            let trailers = pairs_of(st.get("trailers"));
+                            if trailers.is_empty() {
+                                write_chunked(&mut g.stream, &body, &usizes_of(st.get("chunks")), st["gap_ms"].as_u64().unwrap_or(0))
+                            } else {
+                                // a chunked body followed by a trailer section (RFC 9112 7.1.2)
+                                let mut w = Vec::new();
+                                if !body.is_empty() {
+                                    w.extend_from_slice(format!("{:x}\r\n", body.len()).as_bytes());
+                                    w.extend_from_slice(&body);
+                                    w.extend_from_slice(b"\r\n");
+                                }
+                                w.extend_from_slice(b"0\r\n");
+                                for (n, v) in &trailers {
+                                    w.extend_from_slice(&latin1(&format!("{}: {}\r\n", n, v)));
+                                }
+                                w.extend_from_slice(b"\r\n");
+                                g.stream.write_all(&w)
+                            }
+                        }
                         "none" => Ok(()),
                         _ => g.stream.write_all(&body),
                     };
